@@ -77,6 +77,7 @@ type RunOpts struct {
 	Rounds         int
 	GoPolicy       string
 	SwitchHook     string
+	CoroRot        int
 	AlsoProps      []string // assertions tagged for these properties count as this check's too
 	Prop           string   // property id: assertions tagged for another property ("Cnn.") are not this check's
 	Solver         string   // primary backend
@@ -93,6 +94,7 @@ func RunCase(prog *ssa.Program, pkg *ssa.Package, harness string, shape map[stri
 	e.Rounds = ro.Rounds
 	e.GoPolicy = ro.GoPolicy
 	e.SwitchHook = ro.SwitchHook
+	e.CoroRot = ro.CoroRot
 	for k, v := range shape {
 		e.Shape[k] = v
 	}
